@@ -355,10 +355,6 @@ def read_plain(comp, path):
 
 
 # --------------------------------------------------------------------------- the check
-KNOWN_B = ('S-C08b', 'a TCK file cut right after a point that is all-inf and is the first point of a streamline loads '
-           'silently with the streamlines before it: the lone inf triple is taken for the end-of-file marker')
-
-
 def run(chk: Check):
     ensure_impl_path()
     import nibabel as nib
@@ -375,7 +371,7 @@ def run(chk: Check):
     chk.assumptions = [
         'only voxel values / streamlines (+ their per-point and per-streamline data) are compared, not affines or other header fields',
         'the data arrays are non-empty (array_from_file returns at once for 0 bytes)',
-        'TCK theorem: no streamline begins with an all-inf point (otherwise finding S-C08b); header text is ASCII',
+        'TCK theorem: no streamline begins with an all-inf point - TckFile.save refuses such points (repair of S-C08b); header text is ASCII',
         'vox_offset, data size and byte order are what the implementation reads from the intact header block (C10), passed to the model',
         'gzip/bz2/zstd decompressors are oracles: a truncated stream delivers a prefix of the plain bytes and then raises; it may raise earlier than the model assumes',
         'np.memmap of a region beyond the end of the file raises (numpy checks the size); observed, not proved']
@@ -404,7 +400,18 @@ def run(chk: Check):
                     continue
             d = os.path.join(chk.workdir, f's{si}{comp.replace(".", "_")}')
             os.makedirs(d)
-            members, main = write_spec(spec, d, comp)
+            try:
+                members, main = write_spec(spec, d, comp)
+            except Exception as e:  # noqa
+                if spec.get('probe') == 'S-C08b' and 'cannot store a point' in str(e):
+                    chk.refusal('tck_save_refuses_all_inf_point')    # repair of S-C08b: such a file is no longer written
+                    chk.count(key=('refused', spec['name']), tag='writer_refusal')
+                    continue
+                raise
+            if spec.get('probe') == 'S-C08b':
+                chk.violation('property_violation', case={'spec': spec['name']},
+                              predicate='TckFile.save wrote a streamline beginning with an all-inf point (S-C08b has returned)')
+                continue
             lazy = bool(comp) and fam in ('tck', 'trk')
             modes = [m for m in spec.get('modes', ['full']) if not (m == 'lazy_retry' and comp)]
             try:
@@ -536,12 +543,8 @@ def run(chk: Check):
         # the property predicate, directly
         for n, rep in diffs.get((si, comp, key, variant), []):
             desc = dict(spec=spec['name'], comp=comp, member=key, mmap=mm, mode=mode, cut_at=n, file_hex=m['raw'].hex(), family=spec['family'])
-            if spec.get('probe') == 'S-C08b' and known_b_signature(spec, m['raw'], n):
-                chk.known(*KNOWN_B)
-                chk.tagc('known:S-C08b')
-            else:
-                chk.violation('property_violation', case=desc, impl_output=rep,
-                              predicate=f'{name}: the file cut at byte {n} of {len(m["raw"])} loads without error as DIFFERENT data')
+            chk.violation('property_violation', case=desc, impl_output=rep,
+                          predicate=f'{name}: the file cut at byte {n} of {len(m["raw"])} loads without error as DIFFERENT data')
         # correspondence with the model
         mcid = m['pcids'].get(mode) or (m['cid'] if mode in ('full', 'lazy_retry') else None)
         if mcid is None and mode not in m['pystr']:
@@ -619,20 +622,8 @@ UNPROVED = [
     'np.memmap of a region beyond the end of a file raises: runtime behaviour, observed (mmap=True sweep), not proved',
     'the empty TRK file (header only): outside C08_prefix_trk (sl <> []); the harness observes that cuts at 998/999 bytes '
     '(only zero bytes of hdr_size missing, which readinto leaves as zeros) load the same empty tractogram',
-    'TCK with a streamline beginning with an all-inf point: the statement is FALSE (C08_prefix_tck_inf_refuted, finding S-C08b)',
     'vox_offset / data size / byte order as functions of the header block: parameters of the model (C10), any values',
 ]
-
-
-def known_b_signature(spec, raw, n):
-    """structural signature of S-C08b: the cut is right after an all-inf point that begins a streamline"""
-    end = raw.index(b'END\n') + 4
-    off = end
-    for s in spec['sl']:
-        if np.isinf(s[0]).all() and n == off + 12:
-            return True
-        off += 12 * (len(s) + 1)
-    return False
 
 
 def replay(chk, obj):
